@@ -27,14 +27,37 @@ pub fn main(a: &[String]) {
     let out = Mutex::new(Vec::<(usize, Value)>::new());
     let samples = Mutex::new(Vec::<Value>::new());
     let threads = std::thread::available_parallelism().map(|x| x.get()).unwrap_or(4).min(16);
+    // watchdog ("no operation loops without bound"): a case that runs longer than the limit is reported with the observed
+    // outcome kind "timeout"; the report written then contains what was decided up to that point and the replay ends
+    let in_flight: Vec<Mutex<Option<(std::time::Instant, usize)>>> = (0..threads).map(|_| Mutex::new(None)).collect();
+    let done = std::sync::atomic::AtomicBool::new(false);
+    let limit = crate::rec::watchdog_secs();
     std::thread::scope(|s| {
-        for _ in 0..threads {
-            s.spawn(|| loop {
+        s.spawn(|| while !done.load(Ordering::Relaxed) {
+            std::thread::sleep(std::time::Duration::from_millis(300));
+            for slot in &in_flight {
+                let stuck = slot.lock().unwrap().as_ref().filter(|(t0, _)| t0.elapsed().as_secs() >= limit).map(|x| x.1);
+                if let Some(i) = stuck {
+                    let c: Value = serde_json::from_str(&lines[i]).expect("case json");
+                    let mut mm: Vec<(usize, Value)> = out.lock().unwrap_or_else(|e| e.into_inner()).clone();
+                    mm.push((i, json!({"i": i + 1, "op": c["op"], "cls": c.get("cls").cloned().unwrap_or(Value::Null), "args": c["args"], "expected": c["out"], "observed": {"kind": "timeout"}})));
+                    mm.sort_by_key(|x| x.0);
+                    let mut f = std::fs::File::create(report).expect("report");
+                    for (_, m) in &mm { writeln!(f, "{}", m).unwrap(); }
+                    println!("{}", json!({"cases": next.load(Ordering::Relaxed).min(n), "mismatches": mm.len(), "samples": [], "timeout": true}));
+                    std::process::exit(0);
+                }
+            }
+        });
+        let workers: Vec<_> = (0..threads).map(|w| { let (next, out, samples, lines, in_flight) = (&next, &out, &samples, &lines, &in_flight);
+            s.spawn(move || loop {
                 let i = next.fetch_add(1, Ordering::Relaxed);
                 if i >= n { break; }
                 let c: Value = serde_json::from_str(&lines[i]).expect("case json");
                 let op = c["op"].as_str().expect("op");
+                *in_flight[w].lock().unwrap() = Some((std::time::Instant::now(), i));
                 let obs = ops::exec(op, &c["args"]);
+                *in_flight[w].lock().unwrap() = None;
                 if i % (n / 3 + 1) == 0 {
                     samples.lock().unwrap().push(json!({"op": op, "args": c["args"], "expected": c["out"], "observed": obs}));
                 }
@@ -42,8 +65,9 @@ pub fn main(a: &[String]) {
                     out.lock().unwrap().push((i, json!({"i": i + 1, "op": op, "cls": c.get("cls").cloned().unwrap_or(Value::Null),
                         "args": c["args"], "expected": c["out"], "observed": obs})));
                 }
-            });
-        }
+            }) }).collect();
+        for w in workers { let _ = w.join(); }
+        done.store(true, Ordering::Relaxed);
     });
     let mut mm = out.into_inner().unwrap();
     mm.sort_by_key(|x| x.0);
